@@ -248,10 +248,17 @@ func (x *Exec) canInline(st *State, callee *ssa.Function) bool {
 	if len(st.frames) > x.inlineDepthMax {
 		return false
 	}
+	occ := 0
 	for _, f := range st.frames {
 		if f.fn == callee {
-			return false
+			occ++
 		}
+	}
+	if occ > 0 {
+		if x.spec != nil && x.spec.BoundD > 0 && callee == x.fn {
+			return occ <= x.spec.BoundD
+		}
+		return false
 	}
 	if k := x.contractFor(callee); k != nil && k.Inline {
 		return true
@@ -486,6 +493,14 @@ func (x *Exec) havocLocs(st *State, env *Env, locs []Loc) {
 			}
 			x.note("assumption: callee %s writes at most its SSA write footprint; dependencies write no field of a repository struct except through repository callbacks", funcKey(x.curCallee))
 			x.havocFootprint(st, x.curCallee)
+		case l.Cell != nil:
+			v, t := x.eval(env.atOld(), l.Cell)
+			et := derefType(t)
+			ref := x.valRef(st, v)
+			for _, c := range comps(et) {
+				name := cellHeapName(et, c.Suffix)
+				st.heap[name] = mkStore(st.getHeap(name, arrSort(SInt, c.Sort)), ref, x.fresh("havoc_cell", c.Sort))
+			}
 		case l.Ghost != "":
 			g := x.sp.Ghosts[l.Ghost]
 			if g == nil {
